@@ -304,7 +304,14 @@ def run_text_repr(spec):
 def s_body(draw):
     steps = []
     for _ in range(draw(st.integers(1, 5))):
-        how = draw(st.sampled_from(["expectThat", "assertThat", "assert_that", "expectThat"]))
+        how = draw(st.sampled_from(["expectThat", "assertThat", "assert_that", "expectThat", "family"]))
+        if how == "family":
+            # the assert* family that TestCase builds on assertThat
+            fam = draw(st.sampled_from(["assertEqual", "assertEqual", "assertIn", "assertNotIn", "assertIs", "assertIsNot", "assertIsInstance", "assertIsNone"]))
+            steps.append({"how": "assertThat", "family": fam, "kind": "family", "matcher": None,
+                          "value": draw(st.sampled_from([0, 1, "a", "é", None])), "other": draw(st.sampled_from([0, 1, "a", "é", None])),
+                          "message": draw(ANNOT), "verbose": False})
+            continue
         kind = draw(st.sampled_from(["int", "str", "details"]))
         if kind == "int":
             m = draw(ML.tree("int", 1))
@@ -360,7 +367,14 @@ def _run_body(spec):
     model = {"stopped_at": None, "mismatches": 0, "expect_mismatch": 0, "details": []}
     plan = []
     for i, st_ in enumerate(steps):
-        if st_["kind"] == "details":
+        if st_["kind"] == "family":
+            v, o, fam = st_["value"], st_["other"], st_["family"]
+            pool = [0, 1, "a"]
+            want = {"assertEqual": lambda: o == v, "assertIn": lambda: v in pool, "assertNotIn": lambda: v not in pool,
+                    "assertIs": lambda: v is o, "assertIsNot": lambda: v is not o,
+                    "assertIsInstance": lambda: isinstance(v, str), "assertIsNone": lambda: v is None}[fam]()
+            matcher = None
+        elif st_["kind"] == "details":
             matcher = WithDetails(st_["matcher"]["names"], st_["matcher"]["matches"], "M%d" % i)
             want = st_["matcher"]["matches"]
         else:
@@ -388,7 +402,14 @@ def _run_body(spec):
                 if st_["verbose"]:
                     kw["verbose"] = True
                 try:
-                    if st_["how"] == "expectThat":
+                    if st_["kind"] == "family":
+                        v, o, msg = st_["value"], st_["other"], st_["message"]
+                        pool = [0, 1, "a"]
+                        {"assertEqual": lambda: self.assertEqual(o, v, msg), "assertIn": lambda: self.assertIn(v, pool, msg),
+                         "assertNotIn": lambda: self.assertNotIn(v, pool, msg), "assertIs": lambda: self.assertIs(o, v, msg),
+                         "assertIsNot": lambda: self.assertIsNot(o, v, msg), "assertIsInstance": lambda: self.assertIsInstance(v, str, msg),
+                         "assertIsNone": lambda: self.assertIsNone(v, msg)}[st_["family"]]()
+                    elif st_["how"] == "expectThat":
                         self.expectThat(st_["value"], matcher, **kw)
                     elif st_["how"] == "assertThat":
                         self.assertThat(st_["value"], matcher, **kw)
@@ -416,6 +437,10 @@ def _run_body(spec):
     # what the raised MismatchError says: the value, the verbosity asked for, the annotation, the mismatch's own words
     for i, e in caught:
         st_, matcher, want = plan[i]
+        if st_["kind"] == "family":
+            if st_["message"] and st_["message"] not in str(e):
+                vs.append(V("mismatch-error", "family-message-lost", "%s(..., %r): str(MismatchError) is %r" % (st_["family"], st_["message"], str(e)[:200])))
+            continue
         try:
             text = str(e)
             inner = matcher.match(st_["value"])
